@@ -659,3 +659,151 @@ def find_contract_oracle(sc, out):
                     viol.append("lookup for rp=%s ids=%s returned %s, contract says %s" % (e["rp"], e["ids"], got, want))
         content = obs["store_after"]
     return viol, known
+
+
+# --------------------------------------------------------------------------------------------
+# WebAuthn client level (Auth/ClientCheck.v)
+
+WPREAMBLE = ("From PK Require Import Lib.Bytes Lib.Check Lib.Sha256 Auth.ClientCheck.\n"
+             "Open Scope N_scope.\n")
+WCOQ_TARGETS = ["theories/Auth/ClientCheck.vo"]
+
+def c_werr(e):
+    if e["kind"] == "AuthenticatorError":
+        return "(WAuthenticatorError %d)" % e["code"]
+    return "W" + e["kind"]
+
+def c_wvalues(v):
+    return "(Build_wprf_values %s %s)" % (hb(v["first"]), copt(v["second"], hb))
+
+def c_wprf(p):
+    by = "None" if p["by_cred"] is None else "(Some [%s])" % "; ".join("(%s, %s)" % (hb(k), c_wvalues(v)) for k, v in p["by_cred"])
+    return "(Build_wprf_inputs %s %s)" % (copt(p["eval"], c_wvalues), by)
+
+def c_wext(e):
+    if e is None: return "None"
+    return "(Some (Build_wext %s %s %s))" % (copt(e.get("cred_props"), cbool), copt(e.get("prf"), c_wprf), copt(e.get("prf_hashed"), c_wprf))
+
+RK = {"discouraged": "RkDiscouraged", "preferred": "RkPreferred", "required": "RkRequired"}
+UV = {"required": "UvRequired", "preferred": "UvPreferred", "discouraged": "UvDiscouraged", None: "UvPreferred"}
+
+def c_selection(s):
+    if s is None: return "None"
+    return "(Some (Build_selection %s %s %s))" % ("None" if s.get("rk") is None else "(Some %s)" % RK[s["rk"]], cbool(s.get("require_rk", False)), UV[s.get("uv")])
+
+def c_reg_request(q):
+    u = q["user"]
+    return "(Build_reg_request %s %s (Build_user_entity %s (Some %s) (Some %s)) %s [%s] %s %s %s)" % (
+        copt(q["rp_id"], hb), hb(q["rp_name"]), hb(u["id"]), hb(u["name"]), hb(u["display"]), hb(q["challenge"]),
+        "; ".join("(%d)%%Z" % a for a in q["params"]),
+        "None" if q["exclude"] is None else "(Some [%s])" % "; ".join(hb(i) for i in q["exclude"]),
+        c_selection(q["selection"]), c_wext(q["ext"]))
+
+def c_auth_request(q):
+    return "(Build_auth_request %s %s %s %s %s)" % (
+        copt(q["rp_id"], hb), hb(q["challenge"]),
+        "None" if q["allow"] is None else "(Some [%s])" % "; ".join(hb(i) for i in q["allow"]),
+        UV[q.get("uv")], c_wext(q["ext"]))
+
+def cd_tail(extra):
+    if not extra: return b""
+    return ("," + json.dumps(extra, separators=(",", ":"), ensure_ascii=False)[1:-1]).encode()
+
+def c_cd(cd):
+    m = cd.get("mode", "default")
+    if m == "extra": return "(CdExtra %s)" % blit(cd_tail(cd["extra"]))
+    if m == "hash": return "(CdHash %s)" % hb(cd["hash"])
+    return "CdDefault"
+
+def c_prf_out(p):
+    return "(Build_prf_client_out %s %s)" % (copt(p["enabled"], cbool), copt(p["results"], c_wvalues))
+
+def wop_case(cfg, op, obs):
+    log, res = obs["log"], obs["result"]
+    dom = obs["domain"]
+    domain = "(Ok %s)" % hb(dom["ok"]) if "ok" in dom else "(Err %s)" % c_werr(dom["err"])
+    if op["op"] == "register":
+        rand, keys, hmacs = [], [], []
+        save = next((e for e in log if e["c"] == "save"), None)
+        if save is not None:
+            p = save["p"]; rand.append(p["cred_id"])
+            if p["hmac"] is not None:
+                rand.append(p["hmac"]["w"])
+                if p["hmac"]["wo"] is not None: rand.append(p["hmac"]["wo"])
+            k = p["key"]; keys.append((k["d"] or "", k["x"], k["y"]))
+        if "ok" in res and res["ok"]["prf"] and res["ok"]["prf"]["results"]:
+            r = res["ok"]["prf"]["results"]; hmacs.append(r["first"])
+            if r["second"] is not None: hmacs.append(r["second"])
+        if "err" in res:
+            impl = "(Err %s)" % c_werr(res["err"])
+        else:
+            o = res["ok"]
+            cp = "None" if o["cred_props"] is None else "(Some %s)" % copt(o["cred_props"]["rk"], cbool)
+            impl = "(Ok (Build_created %s %s %s %s %s (%d)%%Z %s %s %s))" % (
+                hb(o["id"]), hb(o["raw_id"]), hb(o["client_data_json"]), hb(o["auth_data"]), copt(o["public_key"], hb), o["alg"],
+                hb(o["att_obj"]), cp, copt(o["prf"], c_prf_out))
+        return "CRegister %s %s %s %s %s\n  %s\n  %s %s" % (c_config(cfg), domain, hb(obs["origin_str"]), c_reg_request(op["req"]), c_cd(op["cd"]),
+                                                          c_log(log), c_queues(rand, keys, [], hmacs), impl)
+    sigs, hmacs = [], []
+    if "ok" in res:
+        sigs.append(res["ok"]["signature"])
+        if res["ok"]["prf"] and res["ok"]["prf"]["results"]:
+            r = res["ok"]["prf"]["results"]; hmacs.append(r["first"])
+            if r["second"] is not None: hmacs.append(r["second"])
+        o = res["ok"]
+        impl = "(Ok (Build_authenticated %s %s %s %s %s %s %s))" % (
+            hb(o["id"]), hb(o["raw_id"]), hb(o["client_data_json"]), hb(o["auth_data"]), hb(o["signature"]),
+            copt(o["user_handle"], hb), copt(o["prf"], c_prf_out))
+    else:
+        hmacs += ["00" * 32, "00" * 32]
+        impl = "(Err %s)" % c_werr(res["err"])
+    return "CAuthenticate %s %s %s %s %s\n  %s\n  %s %s" % (c_config(cfg), domain, hb(obs["origin_str"]), c_auth_request(op["req"]), c_cd(op["cd"]),
+                                                          c_log(log), c_queues([], [], sigs, hmacs), impl)
+
+
+def reg_op(rng, origin="https://www.example.com", rp_id="example.com", challenge=None, params=(), exclude=None, selection=None, ext=None,
+           cd=None, user_id=None, name="wendy", display="Wendy A.", rp_name="Example", allow_localhost=False, android=None):
+    return {"op": "register", "origin": origin, "android": android, "allow_localhost": allow_localhost,
+            "req": {"rp_id": None if rp_id is None else rp_id.encode().hex(), "rp_name": rp_name.encode().hex(),
+                    "user": {"id": (user_id if user_id is not None else bytes(rng.randrange(256) for _ in range(8))).hex(),
+                             "name": name.encode().hex(), "display": display.encode().hex()},
+                    "challenge": (challenge if challenge is not None else bytes(rng.randrange(256) for _ in range(32))).hex(),
+                    "params": list(params), "exclude": None if exclude is None else [e.hex() if isinstance(e, bytes) else e for e in exclude],
+                    "selection": selection, "ext": ext},
+            "cd": cd or {"mode": "default"}}
+
+
+def auth_op(rng, origin="https://www.example.com", rp_id="example.com", challenge=None, allow=None, uv="preferred", ext=None, cd=None,
+            allow_localhost=False, android=None):
+    return {"op": "authenticate", "origin": origin, "android": android, "allow_localhost": allow_localhost,
+            "req": {"rp_id": None if rp_id is None else rp_id.encode().hex(),
+                    "challenge": (challenge if challenge is not None else bytes(rng.randrange(256) for _ in range(32))).hex(),
+                    "allow": None if allow is None else [e.hex() if isinstance(e, bytes) else e for e in allow], "uv": uv, "ext": ext},
+            "cd": cd or {"mode": "default"}}
+
+
+def wext(cred_props=None, prf=None, prf_hashed=None):
+    def inp(p):
+        if p is None: return None
+        ev, by = p
+        return {"eval": None if ev is None else {"first": ev[0].hex(), "second": None if ev[1] is None else ev[1].hex()},
+                "by_cred": None if by is None else [[k.encode().hex() if isinstance(k, str) else k.hex(), {"first": f.hex(), "second": None if s is None else s.hex()}] for k, f, s in by]}
+    return {"cred_props": cred_props, "prf": inp(prf), "prf_hashed": inp(prf_hashed)}
+
+
+def client_scenario(store_kind="memory", content=(), config=None, user=None, ops=(), disc="full", empty_is_err=False, faults=None):
+    sc = scenario(store_kind=store_kind, content=content, config=config, user=user, ops=ops, disc=disc, empty_is_err=empty_is_err, faults=faults)
+    sc["mode"] = "client"
+    return sc
+
+
+def wcases_of(scenarios, outputs):
+    flat = []
+    for si, (sc, out) in enumerate(zip(scenarios, outputs)):
+        if "ops" not in out:
+            flat.append((si, None, None, out, None)); continue
+        for oi, (op, obs) in enumerate(zip(sc["ops"], out["ops"])):
+            if "origin_error" in obs:
+                continue
+            flat.append((si, oi, op, obs, wop_case(sc["config"], op, obs)))
+    return flat
